@@ -60,7 +60,7 @@ def lexer_model(c, texts, cp):
     p = run_harness(["lexm-record", c.seed, cp, nm, nr, ev], timeout=3000)
     if p.returncode != 0:
         c.tool_error("lexm-record failed: " + p.stderr[-1500:])
-    nrec = json.loads(p.stdout.strip().splitlines()[-1])["recorded"]
+    nrec = json.loads(p.stdout.strip().split("\n")[-1])["recorded"]
     tr = run_tlc("lexer", "LexerTrace", "LexerTrace.cfg", workers=1, timeout=3000, dfs=True, xss="1g", env={"TRACE": ev})
     rej = tr.tagged.get("REJECT")
     if rej:
